@@ -92,9 +92,8 @@ type service struct {
 	// client id (the client reconnected before the server noticed that this
 	// connection is gone) gets the same session and updates it from its CONNECT
 	// while this connection is still there.
-	clientID     string
-	cleanSession bool
-	will         *message.PublishMessage
+	clientID string
+	will     *message.PublishMessage
 
 	// Wait for the various goroutines to finish starting and stopping
 	wgStarted sync.WaitGroup
@@ -284,11 +283,6 @@ func (svc *service) stop() {
 	// Remove the client topics manager
 	if svc.client {
 		topics.Unregister(svc.sess.ID())
-	}
-
-	// Remove the session from session store if it's suppose to be clean session
-	if svc.cleanSession && svc.sessMgr != nil {
-		svc.sessMgr.Del(svc.clientID)
 	}
 
 	svc.conn = nil
@@ -555,10 +549,9 @@ func (svc *service) cid() string {
 }
 
 // setConnect remembers what the connection needs from its CONNECT message when
-// it ends: the client id, the clean session flag and the will.
+// it ends: the client id and the will.
 func (svc *service) setConnect(req *message.ConnectMessage) {
 	svc.clientID = string(req.ClientID())
-	svc.cleanSession = req.CleanSession()
 	svc.will = nil
 	if req.WillFlag() {
 		svc.will = message.NewPublishMessage()
